@@ -225,3 +225,5 @@ pub fn generate(a: &Args) {
     }
     out.finish();
 }
+
+pub fn mutate_pub(rng: &mut Rng, text: &str) -> String { mutate(rng, text) }
